@@ -359,9 +359,10 @@ def classify_call(P, fn, s):
                     return '16 mem*(array, ., n) with n bounded by the array size, text terminated afterwards', 'n<=%d size=%d' % (ub, room)
                 return None, '%s(%s, ., %s) is bounded but nothing terminates the copied text: stale bytes of a longer earlier value remain' % (name, sx(d), sx(a[2]))
         # idiom 4: memcpy(dst, src_array, p - src_array), p = strchr(src_array, c) non-null here
-        if ex is not None and a[2].get('k') == 'bin' and a[2]['op'] == '-' and is_var(a[2]['l']):
-            p = a[2]['l']['name']
-            src = a[2]['r']
+        a2x = fn.expand_local(a[2], s) if isinstance(a[2], dict) else a[2]
+        if ex is not None and isinstance(a2x, dict) and a2x.get('k') == 'bin' and a2x['op'] == '-' and is_var(a2x['l']):
+            p = a2x['l']['name']
+            src = a2x['r']
             sex = extent_of(fn, src)
             dfn = local_def_expr(fn, p)
             if dfn is None:
